@@ -91,6 +91,8 @@ def run(tier):
     # oracle A + D on the hooked build
     def seen(p, m, res):
         v = m["view"][0]
+        if v.get("res") == "compile_error" and p["name"].startswith("strings/"):
+            ck.inconclusive.append("battery %s does not compile: none of its checks ran" % p["name"])
         if v.get("res") == "compile_error" and not p["name"].startswith("history/"):
             ck.count("programs_not_compiling")
             return
